@@ -22,6 +22,7 @@ type c20Case struct {
 	K     uint64 `json:"k"`
 	KCls  string `json:"k_class"`
 	Tail  string `json:"tail"`
+	Off   int    `json:"base_offset_words"` // xs starts this many 8-byte words after a 64-byte boundary
 	Want  int16  `json:"want"`
 	Got   int16  `json:"got,omitempty"`
 	Fault string `json:"fault,omitempty"`
@@ -70,10 +71,12 @@ func searchGuarded(xs []uint64, k uint64) (res int16, fault string) {
 
 func runC20(c *Ctx) {
 	r := c.R
-	r.Rule = "complete enumeration of (even length 0..maxLen, position of first key>=k incl. none, k class in {exact,between,zero,max}, tail pattern in {ones,zeros,ge_k_at_j (j<8),copy,guard_page}); a case is non-trivial when the slice is non-empty; distinct by (len,pos,kclass,tail). Random-content cases are added on top."
+	r.Rule = "complete enumeration of (even length 0..maxLen, position of first key>=k incl. none, k class in {exact,between,zero,max}, tail pattern in {ones,zeros,ge_k_at_j (j<8),copy,guard_page}) x base alignment of xs (all 8 word offsets within a 64-byte line for lengths <= 72, a quarter of them beyond); a case is non-trivial when the slice is non-empty; distinct by (len,pos,kclass,tail). Random-content cases are added on top."
 	maxLen := 2*255 + 8
 	g := newGuardRegion(2)
-	embed := make([]uint64, maxLen+c20TailWords)
+	// the embedding array starts on a page boundary, so the base alignment of xs is chosen by the word offset
+	emem := newGuardRegion(3)
+	embed := unsafe.Slice((*uint64)(unsafe.Pointer(&emem.data[0])), maxLen+c20TailWords+8)
 	rng := c.rng(20)
 
 	type tailPat struct {
@@ -115,10 +118,9 @@ func runC20(c *Ctx) {
 	}
 
 	check := func(cs c20Case, xs []uint64, guarded bool) {
-		c.J.Case(cs)
 		r.Eval(1)
 		if cs.Len > 0 {
-			r.DistinctKey("%d/%d/%s/%s", cs.Len, cs.Pos, cs.KCls, cs.Tail)
+			r.DistinctKey("%d/%d/%s/%s/%d", cs.Len, cs.Pos, cs.KCls, cs.Tail, cs.Off)
 		}
 		var got int16
 		var fault string
@@ -171,6 +173,7 @@ func runC20(c *Ctx) {
 			positions = append(positions, p)
 		}
 		for _, p := range positions {
+			c.J.Case(map[string]int{"len": L, "first_match": p})
 			type kc struct {
 				k   uint64
 				cls string
@@ -190,18 +193,23 @@ func runC20(c *Ctx) {
 			}
 			for _, kk := range ks {
 				// embedded in a larger array with adversarial tails
-				for _, tp := range tails {
-					xs := embed[:L:L]
-					for i := 0; i < n; i++ {
-						xs[2*i] = keys[i]
-						xs[2*i+1] = ^uint64(0) - uint64(i) // values must be ignored
+				for ti, tp := range tails {
+					for off := 0; off < 8; off++ {
+						if off > 0 && (L > 72 && (L/2+p+ti+off)%4 != 0) {
+							continue // long slices: a quarter of the (offset) combinations, still every offset for every length
+						}
+						xs := embed[off : off+L : off+L]
+						for i := 0; i < n; i++ {
+							xs[2*i] = keys[i]
+							xs[2*i+1] = ^uint64(0) - uint64(i) // values must be ignored
+						}
+						tp.fill(embed[off+L:off+L+c20TailWords], kk.k, keys)
+						want := simd.Naive(xs, kk.k)
+						if int(want) != p {
+							panic(fmt.Sprintf("harness: Naive=%d expected position %d", want, p))
+						}
+						check(c20Case{Len: L, Pos: p, K: kk.k, KCls: kk.cls, Tail: tp.name, Off: off, Want: want}, xs, false)
 					}
-					tp.fill(embed[L:L+c20TailWords], kk.k, keys)
-					want := simd.Naive(xs, kk.k)
-					if int(want) != p {
-						panic(fmt.Sprintf("harness: Naive=%d expected position %d", want, p))
-					}
-					check(c20Case{Len: L, Pos: p, K: kk.k, KCls: kk.cls, Tail: tp.name, Want: want}, xs, false)
 				}
 				// at the guard page
 				xs := g.sliceAtEnd(L)
